@@ -88,7 +88,7 @@ class CommandField(fields.Field):
 
         valid_commands = {member.value for member in tuple(command_type)}
         child_id = validate_child_id(
-            value=data["child_id"],
+            value=data.get("child_id", ""),
             data=data,
             protocol=protocol,
         )
@@ -175,8 +175,8 @@ def validate_child_id(
     )
     child_range(child_id)
 
-    command = validate_command(data["command"])
-    message_type = validate_message_type(data["message_type"])
+    command = validate_command(data.get("command", ""))
+    message_type = validate_message_type(data.get("message_type", ""))
 
     if (
         command == protocol.INTERNAL_COMMAND_TYPE
